@@ -72,6 +72,10 @@ def parse_edit(s: str):
         return ("u", p_path(f[1]), _int(f[2]), None if f[3] == "-" else _int(f[3]), f[4])
     if f[0] == "r" and len(f) == 2:
         return ("r", _nat(f[1]))
+    if f[0] == "c" and len(f) == 4:
+        if f[2] == "":
+            raise Malformed(s)
+        return ("c", p_path(f[1]), f[2], _nat(f[3]))
     if f == ["x"]:
         return ("x",)
     if f[0] in ("v", "a") and len(f) == 5:          # a read made while the modification is under way
@@ -117,6 +121,10 @@ def parse_op(s: str):
         return ("ra", _nat(f[1]), _nat(f[2]), _int(f[3]), p_path(f[4]))
     if k == "rv" and len(f) == 5:
         return ("rv", _nat(f[1]), _nat(f[2]), _int(f[3]), p_path(f[4]))
+    if k == "rb" and len(f) == 5:
+        return ("rb", _nat(f[1]), _nat(f[2]), _int(f[3]), p_path(f[4]))
+    if k == "ex" and len(f) == 3:
+        return ("ex", _nat(f[1]), _nat(f[2]))
     if k == "rt" and len(f) == 4:
         return ("rt", _nat(f[1]), _int(f[2]), p_path(f[3]))
     if k == "rf" and len(f) == 6:
@@ -171,7 +179,7 @@ def parse_line(line: str):
             nsys += 1
         elif o[1] >= nsys:
             raise Malformed("system")
-        if o[0] == "ld" and o[2] >= n:
+        if o[0] in ("ld", "ex") and o[2] >= n:
             raise Malformed("tree")
         if o[0] in ("md", "ld") and any(it[0] in ("v", "a") and it[1] >= nsys for it in o[-1]):
             raise Malformed("system")
@@ -338,41 +346,91 @@ def expect_asof(v: dict, dates: list):
     return out
 
 
+def ref_add(t, path, name, sub):
+    """the tree after `parameters.<path>.add_child(name, sub)`; None when it raises"""
+    if not path:
+        if t[0] != "N" or name in dict(t[1]):
+            return None
+        return ("N", list(t[1]) + [(name, sub)])
+    if t[0] != "N":
+        return None
+    out, hit = [], False
+    for k, c in t[1]:
+        if k == path[0] and not hit:
+            c2 = ref_add(c, path[1:], name, sub)
+            if c2 is None:
+                return None
+            out.append((k, c2))
+            hit = True
+        else:
+            out.append((k, c))
+    return ("N", out) if hit else None
+
+
 class Ref:
-    """the expected state of the process: one reference tree per system"""
+    """the expected state of the process: tree OBJECTS (a reform refers to its baseline's object until one of
+    them replaces its tree) and, per system, the object it refers to"""
 
     def __init__(self, init, trees):
         self.trees = [ref_tree(t) for t in trees]
-        self.cur = [None if init is None else self.trees[init]]
+        self.objs = [] if init is None else [self.trees[init]]
+        self.refs = [None if init is None else 0]
         self.base = [None]
 
+    @property
+    def cur(self):
+        return [None if r is None else self.objs[r] for r in self.refs]
+
+    def root(self, s):
+        while self.base[s] is not None:
+            s = self.base[s]
+        return s
+
+    def sharing(self, s):
+        return [i for i, r in enumerate(self.refs) if r is not None and r == self.refs[s]]
+
+    def _install(self, s, t):
+        self.objs.append(t)
+        self.refs[s] = len(self.objs) - 1
+
     def apply(self, op):
+        """True when the operation completes without raising"""
         if op[0] == "nr":
-            self.cur.append(self.cur[op[1]])
+            self.refs.append(self.refs[op[1]])
             self.base.append(op[1])
         elif op[0] == "ld":
-            self.cur[op[1]] = self.trees[op[2]]
+            self._install(op[1], self.trees[op[2]])
+        elif op[0] == "ex":
+            r = self.refs[op[1]]
+            if r is None:
+                return False
+            kids, ok = list(self.objs[r][1]), True
+            for name, sub in self.trees[op[2]][1]:
+                if name in dict(kids):
+                    ok = False           # ValueError: what was merged before stays
+                    break
+                kids.append((name, sub))
+            self.objs[r] = ("N", kids)
+            return ok
         elif op[0] == "md":
             s = op[1]
-            if self.base[s] is None:
+            if self.base[s] is None or self.refs[s] is None:
                 return False
-            t = self.cur[s]                  # the reform's own current tree: modifiers accumulate
-            if t is None:
-                return False
+            t = self.objs[self.refs[s]]      # the reform's own current tree: modifiers accumulate
             for e in op[2]:
                 if e[0] in ("v", "a"):
                     continue
                 if e[0] == "u":
                     t = ref_update(t, e[1], (e[2], e[3], e[4]))
-                    if t is None:
-                        return False
+                elif e[0] == "c":
+                    t = None if e[3] >= len(self.trees) else ref_add(t, e[1], e[2], self.trees[e[3]])
                 elif e[0] == "r":
-                    if e[1] >= len(self.trees):
-                        return False
-                    t = self.trees[e[1]]
+                    t = None if e[1] >= len(self.trees) else self.trees[e[1]]
                 else:
                     return True          # not a ParameterNode: silently nothing
-            self.cur[s] = t
+                if t is None:
+                    return False
+            self._install(s, t)
         return True
 
     def value(self, s, path, d):
@@ -447,6 +505,9 @@ def shuffled_data(tree, rs: random.Random):
     return {k: shuffled_data(s, rs) for k, s in kids}
 
 
+_EXT_COUNTER = 0
+
+
 class World:
     def __init__(self, trees, rs: random.Random):
         from openfisca_core import entities, taxbenefitsystems, variables
@@ -484,6 +545,49 @@ class World:
         write_dir(self.trees[k], shuffled_data(self.trees[k], self.rs), self.rs, top)
         return top
 
+    def load_extension(self, s: int, k: int) -> str:
+        """system.load_extension(<an importable package whose parameters/ directory holds the children of tree k>).
+        `os.listdir` is pinned to the declared order for that directory (the order of a directory listing is the
+        environment's; the merge stops at the first name already present, so it matters)."""
+        import sys as _sys
+        import yaml
+        global _EXT_COUNTER
+        _EXT_COUNTER += 1
+        if self.tmp is None:
+            self.tmp = tempfile.mkdtemp(prefix="ofv_c07_")
+        name = f"ofv_ext_{os.getpid()}_{_EXT_COUNTER}"
+        pkg = os.path.join(self.tmp, name)
+        pdir = os.path.join(pkg, "parameters")
+        os.makedirs(pdir)
+        open(os.path.join(pkg, "__init__.py"), "w").close()
+        tree = self.trees[k]
+        data = shuffled_data(tree, self.rs)
+        order = []
+        for (child, sub) in tree[1]:
+            if sub[0] == "N" and self.rs.random() < 0.5:
+                write_dir(sub, data[child], self.rs, os.path.join(pdir, child))
+                order.append(child)
+            else:
+                with open(os.path.join(pdir, child + ".yaml"), "w") as f:
+                    yaml.safe_dump(data[child], f)
+                order.append(child + ".yaml")
+        real_listdir = os.listdir
+
+        def listdir(path="."):
+            return list(order) if os.path.abspath(path) == os.path.abspath(pdir) else real_listdir(path)
+        _sys.path.insert(0, self.tmp)
+        os.listdir = listdir
+        try:
+            self.systems[s].load_extension(name)
+            return "ok"
+        except Exception:
+            return "ERR"
+        finally:
+            os.listdir = real_listdir
+            _sys.path.remove(self.tmp)
+            for m in [m for m in _sys.modules if m == name or m.startswith(name + ".")]:
+                del _sys.modules[m]
+
     def instant_arg(self, form: int, d: int):
         from openfisca_core import periods
         day = D(d)
@@ -497,6 +601,10 @@ class World:
             return periods.period(f"{day.year:04d}")
         if form == 5 and (day.month, day.day) == (1, 1):
             return day.year
+        if form == 6 and day.day == 1:
+            return f"{day.year:04d}-{day.month:02d}"
+        if form == 7 and (day.month, day.day) == (1, 1):
+            return f"{day.year:04d}"
         return iso(d)
 
     def in_formula(self, s: int, traced: bool, d: int, body):
@@ -537,6 +645,13 @@ class World:
         except Exception:
             return "ERR"
 
+    def read_base_view(self, s, form, d, path) -> str:
+        try:
+            root = self.systems[s]._get_baseline_parameters_at_instant(self.instant_arg(form, d))
+            return show_snap(self.walk(root, path))
+        except Exception:
+            return "ERR"
+
     def read_tree(self, s, d, path) -> str:
         try:
             obj = self.walk(self.systems[s].parameters, path)
@@ -561,7 +676,15 @@ class World:
             except Exception:
                 return "ERR"
             if isinstance(x, TracingParameterNodeAtInstant):
-                x = x.parameter_node_at_instant
+                # the wrapper's own iteration and membership test must be the wrapped node's
+                inner = x.parameter_node_at_instant
+                try:
+                    names = sorted(inner)
+                    if sorted(x) != names or not all(k in x for k in names) or "__no_such_child__" in x:
+                        return "WRAPPER-ITERATION-DIFFERS"
+                except TypeError:
+                    pass                                   # a vectorial node is not iterable, wrapped or not
+                x = inner
             return show_snap(x)
         try:
             r, log = self.in_formula(s, traced, d, body)
@@ -575,9 +698,22 @@ class World:
         import numpy as np
         from openfisca_core.indexed_enums import Enum, EnumArray
         if keyspec[0] == "n":
-            return np.array(keyspec[1], dtype=str) if not keyspec[1] else np.array(keyspec[1])
+            ks = keyspec[1]
+            if not ks:
+                return np.array(ks, dtype=str)
+            enc = self.rs.choice(["U", "U", "O", "S"])
+            if enc == "O":                               # an object array of str
+                arr = np.empty(len(ks), dtype=object)
+                arr[:] = ks
+                return arr
+            if enc == "S" and all(k.isascii() and k for k in ks):
+                return np.array([k.encode() for k in ks])   # a bytes array
+            return np.array(ks)
         if keyspec[0] == "i":
-            return np.array(keyspec[1], dtype=self.rs.choice(["int64", "int32", "int16"]))
+            lo, hi = min(keyspec[1], default=0), max(keyspec[1], default=0)
+            dts = ["int64", "int32", "int16"] + (["int8"] if -128 <= lo and hi < 128 else []) + \
+                  (["uint8", "uint16", "uint64"] if 0 <= lo and hi < 256 else [])
+            return np.array(keyspec[1], dtype=self.rs.choice(dts))
         names, idx = keyspec[1], keyspec[2]
         E = Enum("OfvKeys", {n: f"label {n}" for n in names})
         members = list(E)
@@ -589,6 +725,24 @@ class World:
         if self.rs.random() < 0.5 and idx:
             return E.encode(np.array([names[i] for i in idx]))
         return EnumArray(np.array(idx, dtype=np.uint8), E)
+
+    def date_array(self, dates):
+        """the date vector as datetime64 of one of the units that denote exactly these days"""
+        import numpy as np
+        key = np.array([iso(x) for x in dates], dtype="datetime64[D]")
+        days = [D(x) for x in dates]
+        units = ["D", "D", "h", "m", "s", "ms", "us"]
+        if all(1700 <= x.year <= 2200 for x in days):
+            units.append("ns")
+        if days and all(x.day == 1 for x in days):
+            units.append("M")
+            if all(x.month == 1 for x in days):
+                units.append("Y")
+        u = self.rs.choice(units)
+        key = key.astype(f"datetime64[{u}]")
+        if u in ("h", "m", "s", "ms", "us", "ns") and self.rs.random() < 0.5 and len(dates):
+            key = key + np.timedelta64(self.rs.choice([1, 13, 23]), "h")     # a time of day within the same day
+        return key
 
     def follow(self, x, steps, attr_only: bool):
         import numpy as np
@@ -662,6 +816,11 @@ class World:
                         p.update(start=start, stop=periods.instant(iso(e[3])), value=v)
                 elif e[0] == "r":
                     parameters = world.node(e[1])
+                elif e[0] == "c":
+                    from openfisca_core.parameters import ParameterNode
+                    full = ".".join(e[1] + [e[2]])
+                    child = ParameterNode(full, data=shuffled_data(world.trees[e[3]], world.rs))
+                    world.walk(parameters, e[1]).add_child(e[2], child)
                 else:
                     not_a_node = True
             return None if not_a_node else parameters
@@ -685,6 +844,10 @@ class World:
                 outs.append(self.read_view(*op[1:]))
             elif k == "rt":
                 outs.append(self.read_tree(*op[1:]))
+            elif k == "rb":
+                outs.append(self.read_base_view(*op[1:]))
+            elif k == "ex":
+                outs.append(self.load_extension(op[1], op[2]))
             elif k == "rf":
                 outs.append(self.read_formula(*op[1:]))
             elif k == "fx":
@@ -697,7 +860,7 @@ class World:
             elif k == "ao":
                 import numpy as np
                 _, s, route, form, d, path, dates, steps = op
-                key = np.array([iso(x) for x in dates], dtype="datetime64[D]")
+                key = self.date_array(dates)
                 outs.append(self.vec_read(s, route, form, d, path, key, steps, attr_only=True))
             elif k == "ld":
                 _, s, tk, items = op
@@ -836,10 +999,10 @@ def oracle(case: Case, out: str):
         # Whether a modifier starts from the reform's own tree or from its baseline's is property C14's
         # business (repair C14e): once a modifier ran on a reform whose tree differed from its baseline's,
         # the reference value of that system is not used any more, only the agreement of the routes.
-        if k == "md" and ref.base[op[1]] is not None and ref.cur[op[1]] != ref.cur[ref.base[op[1]]]:
+        if k == "md" and ref.base[op[1]] is not None and ref.refs[op[1]] != ref.refs[ref.base[op[1]]] and ref.cur[op[1]] != ref.cur[ref.base[op[1]]]:
             vague_sys.add(op[1])
         vague = op[1] in vague_sys
-        if k in ("nr", "ld", "md"):
+        if k in ("nr", "ld", "md", "ex"):
             parts = ans.split("~")
             items = [it for it in op[-1] if it[0] in ("v", "a")] if k in ("ld", "md") else []
             if parts[0] == "ok" and items:
@@ -859,9 +1022,17 @@ def oracle(case: Case, out: str):
                 vague_sys.discard(op[1])
             if k == "nr" and op[1] in vague_sys:
                 vague_sys.add(len(ref.cur) - 1)
-            if k in ("ld", "md"):
+            if k in ("ld", "md", "ex"):
                 last_change = where
                 changed = True
+            continue
+        if k == "rb":                    # the view of the root of the chain of baselines
+            _, s, _form, d, path = op
+            root = ref.root(s)
+            r = check_read("rv", where + f" (root baseline: system {root})", root, d, path, ans, ref.value(root, path, d),
+                           root in vague_sys, last_change)
+            if r:
+                return r
             continue
         if k in ("ra", "rv", "rt", "rf"):
             if k == "ra":
@@ -1016,10 +1187,35 @@ def g_tree(rng):
     if rng.random() < 0.15:
         lo = ENTRY_DATES[0].toordinal()
         kids.append(("sc", c06.gen_scale(rng, lo, lo + 400, rng.randint(1, 2))[0]))
-    if rng.random() < 0.1:                   # an inhomogeneous group
-        kids.append(("mix", ("N", [("p", g_param(rng, True)), ("q", ("N", [("r", g_param(rng, True))]))])))
+    if rng.random() < 0.12:                  # an inhomogeneous group: a node beside a value, a sibling with a
+        kind = rng.choice(["type", "type-rev", "missing", "extra", "deep"])      # missing / an extra key
+        leaf = lambda: g_param(rng, True)
+        if kind == "type":
+            mix = [("p", leaf()), ("q", ("N", [("r", leaf())]))]
+        elif kind == "type-rev":
+            mix = [("q", ("N", [("r", leaf())])), ("p", leaf())]
+        elif kind == "missing":
+            mix = [("p", ("N", [("a", leaf()), ("b", leaf())])), ("q", ("N", [("a", leaf())]))]
+        elif kind == "extra":
+            mix = [("p", ("N", [("a", leaf())])), ("q", ("N", [("a", leaf()), ("b", leaf())]))]
+        else:
+            mix = [("p", ("N", [("a", ("N", [("k", leaf())])), ("b", ("N", [("k", leaf())]))])),
+                   ("q", ("N", [("a", ("N", [("k", leaf())])), ("b", ("N", [("m", leaf())]))]))]
+        kids.append(("mix", ("N", mix)))
     rng.shuffle(kids)
     return ("N", kids[:6])
+
+
+def g_ext_tree(rng):
+    """what an extension package brings: fresh names, sometimes one that the base trees also use"""
+    kids = [("e_x", g_param(rng))]
+    if rng.random() < 0.5:
+        kids.append(("e_g", g_homog(rng, rng.sample(ZONES, 2), rng.choice([1, 2]))))
+    if rng.random() < 0.4:
+        kids.append(("e_sub", ("N", [(k, g_param(rng)) for k in rng.sample(["a", "b"], rng.randint(1, 2))])))
+    if rng.random() < 0.25:
+        kids.insert(rng.randint(0, len(kids)), (rng.choice(["x", "y", "g", "w"]), g_param(rng)))
+    return ("N", kids)
 
 
 def param_paths(t, prefix=()):
@@ -1059,9 +1255,9 @@ def g_form(rng, d: int) -> int:
     day = D(d)
     forms = [0, 0, 1, 2]
     if day.day == 1:
-        forms.append(3)
+        forms += [3, 6]
         if day.month == 1:
-            forms += [4, 5]
+            forms += [4, 5, 7]
     return rng.choice(forms)
 
 
@@ -1171,6 +1367,12 @@ def g_edits(rng, ref: Ref, b: int, ntrees: int, hot: list) -> str:
     if r < 0.09 or not paths:
         return "x" if paths else f"r,{rng.randrange(ntrees)}"
     edits = []
+    if rng.random() < 0.15:                  # the modifier adds a sub-tree with add_child
+        where_ = rng.choice([q for q in node_paths(t) if len(q) <= 1] or [[]])
+        name = rng.choice(["added", "added", "extra_1", "x", "g"])
+        edits.append(f"c,{fmt_path(where_)},{name},{rng.randrange(ntrees)}")
+        if rng.random() < 0.5:
+            return "+".join(edits)
     for _ in range(rng.choice([1, 1, 1, 2, 3])):
         p = rng.choice(paths)
         a = (rng.choice(hot) if hot and rng.random() < 0.5 else rng.choice(READ_DATES).toordinal()) - rng.choice([0, 0, 0, 1, 30, 365])
